@@ -15,7 +15,7 @@ MOD = "c04"
 
 @st.composite
 def _case(draw: Any, args: dict) -> dict:
-    pkg = draw(structgen.struct_package(gen.pkg_name(draw(st.integers(0, 99))), priv_bias=2))
+    pkg = draw(structgen.struct_package(gen.pkg_name(draw(st.integers(0, 99))), priv_bias=2, inherit=True))
     return {"pkg": pkg, "options": {"nc": draw(st.booleans())}}
 
 
